@@ -26,8 +26,9 @@ def models(quick):
                          maxlookups=2, invariants=INVS, properties=("IndexStableA",))]
     return [ModelRun("C03_two", letters=[0, 1], maxlen=3, maxn=2, maxn2=2, ks=[1, 2], engines=["symdel", "hash"],
                      invariants=INVS),
-            ModelRun("C03_two3", letters=[0, 1, 2], maxlen=2, maxn=2, maxn2=2, ks=[1, 2, 3], engines=["symdel", "hash"],
-                     invariants=INVS),
+            # (hash_based enumerates the 20-letter edit ball on the real code: radius 3 costs seconds per query, so k <= 2 there)
+            ModelRun("C03_two3", letters=[0, 1, 2], maxlen=2, maxn=2, maxn2=2, ks=[1, 2, 3], engines=["symdel"], invariants=INVS),
+            ModelRun("C03_two3h", letters=[0, 1, 2], maxlen=2, maxn=2, maxn2=1, ks=[1, 2], engines=["hash"], invariants=INVS + ("BallExact",)),
             ModelRun("C03_hist", letters=[0, 1], maxlen=2, maxn=2, maxn2=1, ks=[1, 2], engines=["symdel", "hash"],
                      maxlookups=2, invariants=INVS, properties=("IndexStableA",))]
 
